@@ -21,7 +21,12 @@ PHRASE = {
     "undefined": "lacks", "skip": "skips", "interrupt": "interrupts",
     "convert": "misconverts 12x", "act": "acts", "nest": "nests", "abort": "aborts",
     "convert_key": "misconverts k12",
+    # "typed": the step text is bound PER STEP TYPE: a passing @given definition, a failing @then
+    # definition and no @when definition; typed steps share their uid (T0, T1), so that one text
+    # occurs with several step types in one run
+    "typed": "depends",
 }
+TYPED_RESULT = {"given": "pass", "when": "undefined", "then": "fail"}
 STEP_TYPES = ("given", "when", "then")
 KW_TYPE = {"Given": "given", "When": "when", "Then": "then"}
 
@@ -46,6 +51,13 @@ def step_text(step, row=None):
 
 def step_outcome(step, row=None, run_index=0):
     """Outcome of a step for a given examples row (dict col -> cell)."""
+    o = _step_outcome(step, row, run_index)
+    if o == "typed":
+        return TYPED_RESULT[step["st"]]
+    return o
+
+
+def _step_outcome(step, row, run_index):
     o = step["o"]
     if o == "act":
         acts = step["acts"]
@@ -59,6 +71,38 @@ def step_outcome(step, row=None, run_index=0):
                 return k
         raise ValueError("row cell %r is no outcome phrase" % phrase)
     return o
+
+
+def assign_step_types(feature):
+    """Set step["st"], the effective step type: Given/When/Then by keyword; And/But take the type of
+    the preceding step -- an initial one that of the last (inherited) background step; '*' likewise,
+    'given' without predecessor.  Same rules as render_feature() states as facts (checked by C04)."""
+    def run(steps, inherit=None):
+        last = None
+        for s in steps or []:
+            sk = s.get("kw", "Given")
+            if last is None and sk in ("And", "But"):
+                last = inherit
+            if sk in KW_TYPE:
+                last = stype = KW_TYPE[sk]
+            elif sk in ("And", "But"):
+                stype = last
+            else:
+                last = stype = last if last else "given"
+            s["st"] = stype
+        return last
+    fb = run(feature["bg"]) if feature.get("bg") is not None else None
+    for item in feature["items"]:
+        if item["k"] == "r":
+            bg_last = fb
+            if item.get("bg") is not None:
+                rb = run(item["bg"], fb)
+                if item["bg"]:
+                    bg_last = rb
+            for sub in item["items"]:
+                run(sub["steps"], bg_last)
+        else:
+            run(item["steps"], fb)
 
 
 # ---------------------------------------------------------------------------
@@ -140,7 +184,7 @@ def normalize(program):
             nonlocal st
             for s in steps or []:
                 if "uid" not in s:
-                    s["uid"] = u"u%d" % st
+                    s["uid"] = (u"T%d" % (s.get("tk") or 0)) if s.get("o") == "typed" else u"u%d" % st
                 st += 1
                 s.setdefault("kw", "Given")
                 s.setdefault("o", "pass")
@@ -165,6 +209,7 @@ def normalize(program):
                     for ex in sub["ex"]:
                         ex.setdefault("name", u"")
                         ex.setdefault("tags", [])
+        assign_step_types(feat)
     program.setdefault("cfg", {})
     return program
 
